@@ -99,6 +99,10 @@ var c10RemoteExts = []c10RemoteExt{
 	{Name: "id-20", Audio: []vScanOfferExt{{3, c10URIMid}}, Video: []vScanOfferExt{{20, c10URITWCC}, {3, c10URIMid}}},
 	{Name: "uri-twice-in-section", Audio: []vScanOfferExt{{4, c10URIMid}}, Video: []vScanOfferExt{{4, c10URIMid}, {5, c10URIMid}}},
 	{Name: "uri-other-id-per-section", Audio: []vScanOfferExt{{5, c10URIMid}}, Video: []vScanOfferExt{{6, c10URIMid}, {7, c10URITWCC}}},
+	// a URI negotiated under a one-byte id by the first section and mapped to a two-byte id by the next one
+	// (legal for the remote with extmap-allow-mixed), and the other way round
+	{Name: "uri-valid-then-id-15", Audio: []vScanOfferExt{{5, c10URIMid}}, Video: []vScanOfferExt{{15, c10URIMid}, {7, c10URITWCC}}},
+	{Name: "uri-id-20-then-valid", Audio: []vScanOfferExt{{20, c10URIMid}}, Video: []vScanOfferExt{{5, c10URIMid}, {7, c10URITWCC}}},
 	{Name: "unknown-uri", Video: []vScanOfferExt{{2, c10URIAbs}, {7, "urn:example:unknown"}, {9, c10URIMid}}},
 }
 
@@ -407,8 +411,38 @@ func c10Run(t *testing.T, c *vkit.Check, memo map[string]bool, cs c10Case) {
 		}
 		outcome("reoffer")
 		c10Check(c, memo, cs, "reoffer", reoffer.SDP)
+		// later rounds from the same remote peer: the same sections and codecs, but the header extensions
+		// remapped (a URI negotiated under a one-byte id is now offered under 15 / 20, then under small ids again)
+		if len(cs.RemoteCodecs) > 0 {
+			return
+		}
+		for _, rx2 := range c10LaterRounds {
+			cs2 := cs
+			cs2.RemoteExt = rx2
+			if err := pc.SetRemoteDescription(SessionDescription{Type: SDPTypeOffer, SDP: c10Offer(cs2)}); err != nil {
+				outcome("later-offer-rejected")
+
+				return
+			}
+			answer, err := pc.CreateAnswer(nil)
+			if err != nil {
+				outcome("later-answer-error")
+
+				return
+			}
+			outcome("later-answer")
+			c10Check(c, memo, cs, "answer-after-remap-to-"+c10RemoteExts[rx2].Name, answer.SDP)
+			if err := pc.SetLocalDescription(answer); err != nil {
+				outcome("later-set-local-error")
+
+				return
+			}
+		}
 	})
 }
+
+// c10LaterRounds: extmap variants of the second, third and fourth remote offer on the same connection.
+var c10LaterRounds = []int{3, 4, 1}
 
 // c10RenumberedOffers: remote video codec lists built from VP8 and H264 (the two
 // primaries of the renumbering product) where each is absent or carries its local
